@@ -21,11 +21,14 @@ RULE = (
 )
 ASSUMPTIONS = [
     "one blocking cross-loop direction per scenario (asyncio->trio or trio->asyncio): both at once deadlock by design; execute of a payload's own coroutine flavour from inside it is not generated",
-    "StopIteration/StopAsyncIteration (coroutine flavours) and the exact concurrent.futures exception classes (CancelledError, InvalidStateError, TimeoutError) are excluded: Python's future plumbing converts them",
+    "StopIteration/StopAsyncIteration are excluded for coroutine flavours; the exact classes concurrent.futures.CancelledError/InvalidStateError are excluded and for an exact TimeoutError from an asyncio payload only the type is judged: Python's future plumbing re-creates these; their subclasses are generated and judged by identity",
     "executed payloads are short (<= 50 ms)",
 ]
 BOUND = 25
-EXC_OK = [n for n in EXC_NAMES if n not in ("StopIteration", "StopAsyncIteration", "CancelledFuture", "InvalidStateError", "TimeoutError")]
+# the exact concurrent.futures classes are re-created by Python's future plumbing when they cross threads:
+# for those only the type of what the caller catches is judged, not its identity
+CONVERTED = {"CancelledFuture": "CancelledError", "InvalidStateError": "InvalidStateError", "TimeoutError": "TimeoutError"}
+EXC_OK = [n for n in EXC_NAMES if n not in ("StopIteration", "StopAsyncIteration", "CancelledFuture", "InvalidStateError")]
 
 
 @st.composite
@@ -126,6 +129,9 @@ def judge(sc, obs) -> Result:
         if p["end"][0] == "raise":
             if not o.get("raised"):
                 res.fail("exception-not-delivered", f"{who}: the caller got {o.get('result')} instead of the exception")
+            elif p["end"][1] in CONVERTED and p["flavour"] == "asyncio":
+                if o.get("raised") != CONVERTED[p["end"][1]]:
+                    res.fail("exception-type-changed", f"{who}: the caller caught {o.get('raised')} {o.get('raised_repr')} instead of a {CONVERTED[p['end'][1]]}")
             elif not o.get("raised_is_injected"):
                 res.fail("exception-not-identical", f"{who}: the caller caught {o.get('raised')} {o.get('raised_repr')}, not the very exception raised")
         else:
